@@ -18,7 +18,8 @@ Definition sh (text : string) : cmd := {| c_task := ""; c_attrs := [("Cmd", text
 Definition call (target : string) : cmd := {| c_task := target; c_attrs := [] |}.
 Definition mk_inc (ns file : string) (flatten : bool) : include :=
   {| i_ns := ns; i_taskfile := file; i_dir := ""; i_optional := false; i_internal := false; i_flatten := flatten;
-     i_advanced := false; i_aliases := []; i_excludes := []; i_vars := [] |}.
+     i_advanced := false; i_aliases := []; i_excludes := []; i_vars := [];
+     i_taskfile_t := [TLit file]; i_dir_t := [] |}.
 Definition mk_file (vs : vars) (incs : list include) (ts : list (string * task)) : file :=
   {| f_version := "3.0.0"; f_dotenv := false; f_output := ""; f_vars := vs; f_env := []; f_includes := incs;
      f_tasks := ts; f_err := None |}.
